@@ -1049,7 +1049,13 @@ class Authenticated(BaseClientHandler):
             and not cmd.list_patterns
         ):
             if not extended:
-                await self.client.push(r'* LIST (\Noselect) "/" ""' + "\r\n")
+                # NOTE: LSUB comes through here as well and its answer is
+                #       named LSUB.
+                #
+                name = "LSUB" if lsub else "LIST"
+                await self.client.push(
+                    f'* {name} (\\Noselect) "/" ""' + "\r\n"
+                )
             return
 
         assert self.server
